@@ -126,8 +126,10 @@ func (this *Conn) NodeIds() []uint64 {
 
 func (this *Conn) AddNode(id uint64, address string) {
 	this.addressesMu.Lock()
-	_, exists := this.addresses[id]
-	if !exists {
+	known, exists := this.addresses[id]
+	// The nodes a cluster is bootstrapped with are announced without an address.
+	// Such an entry must not shadow the address learned later.
+	if !exists || (known == "" && address != "") {
 		this.addresses[id] = address
 	}
 	this.addressesMu.Unlock()
